@@ -847,6 +847,17 @@ def laws(W, rec):
                 law("C08/pickle:ImmutableMultiDict", p == d and type(p) is cls and list(p.items(multi=True)) == before, f"proto {proto}: {list(p.items(multi=True))!r}", pairs)
             for c in (copy.copy(d), copy.deepcopy(d)):
                 law("C08/copy:ImmutableMultiDict", c == d and type(c) is cls, "copy/deepcopy differs", pairs)
+            # a deep copy shares nothing mutable with the original: values that are lists (JSON-like payloads kept in an
+            # immutable container) can be changed through the copy without touching the original - directly, inside a
+            # combined view, and through the method as well as the copy module
+            if pairs:
+                dm = cls([(k, [v]) for k, v in pairs])
+                for nm_, mk_ in (("copy.deepcopy", copy.deepcopy), ("deepcopy()", lambda o: o.deepcopy()), ("combined", lambda o: copy.deepcopy(DS.CombinedMultiDict([o])).dicts[0])):
+                    cp = mk_(dm)
+                    cp.getlist(pairs[0][0])[0].append("changed-through-the-copy")
+                    law("C08/deepcopy-independent:ImmutableMultiDict", dm.getlist(pairs[0][0])[0] == [pairs[0][1]] and cp == cls([(k, [v]) for k, v in pairs][:0] + list(cp.items(multi=True))),
+                        f"{nm_}: a list stored in the original reads {dm.getlist(pairs[0][0])[0]!r} after the copy's list was appended to", pairs)
+                    dm = cls([(k, [v]) for k, v in pairs])
             mc = d.copy()
             law("C08/copy-mutable:ImmutableMultiDict", type(mc) is DS.MultiDict and mc == d, "copy() is not an equal MultiDict", pairs)
             mc.add("q", "1")
@@ -886,6 +897,14 @@ def laws(W, rec):
         law("C08/environheaders-reflects-environ", "HTTP_A" not in env and sorted(eh) == sorted([("X-A", "1"), ("Content-Type", "t"), ("X-C", env["HTTP_X_C"])]), f"{list(eh)!r}", None)
         env["HTTP_X_B"] = "2"
         law("C08/environheaders-live", eh.get("X-B") == "2" and ("X-B", "2") in list(eh) and len(eh) == len(list(eh)), f"{list(eh)!r}", None)
+        # every read the Headers interface has, with and without type conversion, sees the environ
+        env["HTTP_X_N"] = "42"
+        reads = {"get": eh.get("X-N"), "get(type)": eh.get("x-n", type=int), "getlist": eh.getlist("X-N"), "getlist(type)": eh.getlist("x-n", type=int), "getitem": eh["X-N"],
+                 "get_all": eh.get_all("X-N"), "in": "x-n" in eh, "keys": "X-N" in list(eh.keys()), "values": "42" in list(eh.values()), "items": ("X-N", "42") in list(eh.items()),
+                 "getlist(type) missing": eh.getlist("X-Missing", type=int), "get(type) bad": eh.get("X-A", type=lambda v: int("x" + v)), "to_wsgi_list": ("X-N", "42") in eh.to_wsgi_list()}
+        want_reads = {"get": "42", "get(type)": 42, "getlist": ["42"], "getlist(type)": [42], "getitem": "42", "get_all": ["42"], "in": True, "keys": True, "values": True, "items": True,
+                      "getlist(type) missing": [], "get(type) bad": None, "to_wsgi_list": True}
+        law("C08/environheaders-reflects-environ", reads == want_reads, f"reads of X-N = '42' through the environ-backed view: {({k: v for k, v in reads.items() if v != want_reads[k]})!r}", None)
         del env["HTTP_X_A"]
         law("C08/environheaders-live", eh.get("X-A") is None and "X-A" not in eh, f"{list(eh)!r}", None)
     # CombinedMultiDict vs concatenation model
